@@ -575,3 +575,20 @@ func GenuineID(name string) [32]byte {
 	}
 	return sha256.Sum256(append([]byte("genuine-id:"), b[:]...))
 }
+
+func PanicMsg(f func()) (msg string) {
+	defer func() {
+		if r := recover(); r != nil {
+			switch r.(type) {
+			case AssumeFailed, AssertFailed:
+				panic(r)
+			}
+			msg = fmt.Sprint(r)
+			if msg == "" {
+				msg = "panic"
+			}
+		}
+	}()
+	f()
+	return ""
+}
